@@ -708,6 +708,8 @@ pub fn run(args: &Args) -> i32 {
                                         // stable row ids: rows rewritten by an earlier UPDATE / MERGE keep their row id; the key
                                         // index still finds them and the scan of unindexed fragments finds them again
                                         "index-stale-entry-after-update-with-stable-row-ids"
+                                    } else if ix.is_some() && t.ds.manifest().uses_stable_row_ids() && t.history.iter().any(|h| (h.starts_with("UPDATE") || h.starts_with("MERGE")) && !h.contains("[rejected") && !h.contains("[expected error")) {
+                                        "index-stale-entry-after-update-with-stable-row-ids"
                                     } else {
                                         "merge-failed"
                                     };
@@ -779,12 +781,17 @@ pub fn run(args: &Args) -> i32 {
                         return;
                     }
                     // (R4) stable row ids + key index + rows rewritten earlier: the index finds moved rows (see C19)
-                    let r4 = opk == "merge" && ix.is_some() && t.ds.manifest().uses_stable_row_ids()
-                        && t.history[..t.history.len().saturating_sub(1)].iter().any(|h| (h.starts_with("UPDATE") || h.starts_with("MERGE")) && !h.contains("[rejected"));
+                    let prior_rewrite = t.history[..t.history.len().saturating_sub(1)].iter().any(|h| (h.starts_with("UPDATE") || h.starts_with("MERGE")) && !h.contains("[rejected") && !h.contains("[expected error"));
+                    let pred_on_key = cur_pred.as_ref().map(|p| {
+                        let mut c = BTreeSet::new();
+                        p.columns(&mut c);
+                        c.contains(&on_col)
+                    });
+                    let r4 = ix.is_some() && t.ds.manifest().uses_stable_row_ids() && prior_rewrite && (opk == "merge" || pred_on_key == Some(true));
                     if r4 && !(r1 || r2) {
                         report.violation(
                             "index-stale-entry-after-update-with-stable-row-ids",
-                            &format!("after MERGE: {}", v.what),
+                            &format!("after {}: {}", opk.to_uppercase(), v.what),
                             witness(&t, &op_desc, json!({"detail": v.detail, "extra": trunc(&extra, 10), "missing": trunc(&missing, 10), "changed": trunc(&changed, 10)})),
                         );
                         return;
@@ -856,8 +863,15 @@ pub fn run(args: &Args) -> i32 {
                                             ix.is_some() && neg.iter().any(|(k, c)| *c == on_col && matches!(*k, "eq" | "in")) && n > ids.len()
                                         };
                                         let df_full = if p.has_mergeable_inlists_same_column() { df.ids_where_full_sql(&sql).await.ok().map(|s| s.len()) } else { None };
+                                        let stale = ix.is_some() && t.ds.manifest().uses_stable_row_ids() && {
+                                            let mut c = BTreeSet::new();
+                                            p.columns(&mut c);
+                                            c.contains(&on_col)
+                                        } && t.history.iter().any(|h| (h.starts_with("UPDATE") || h.starts_with("MERGE")) && !h.contains("[rejected") && !h.contains("[expected error"));
                                         let sig = if nulls_under_not {
                                             "index-extra-rows-all-null-in-indexed-col-under-negated-eq-or-in"
+                                        } else if stale {
+                                            "index-stale-entry-after-update-with-stable-row-ids"
                                         } else if df_full == Some(n) && n > ids.len() {
                                             crate::c16::DF_NOT_IN_SIG
                                         } else if df_full == Some(ids.len()) {
